@@ -4,7 +4,7 @@ import io, os, random, subprocess, sys, tempfile, shutil
 import core, layout, eam_common as ec, p_c01, p_c02, p_c03, p_c04, p_c05, p_c19
 
 ID = 'C17'
-GENMODS = ['gen_layout', 'gen_eam']
+GENMODS = ['gen_layout', 'gen_eam', 'gen_glue']
 TARGET = 'props/C17.vo'
 PROOF_FILES = ['lib/Effects.v', 'props/C17.v']
 AXIOMS = []
